@@ -77,13 +77,41 @@ var DiagStems = []string{
 	"can't be used",
 }
 
+// shape renders the result list and the return statement of an injector whose
+// value result has type typ (zero expression zero). Which of the optional
+// cleanup / error results are declared varies with n, except those forbidden.
+func shape(typ, zero string, n int, forbidCleanup, forbidErr bool) (results, ret string) {
+	c := !forbidCleanup && n%2 == 1
+	e := !forbidErr && (n/2)%2 == 1
+	switch {
+	case c && e:
+		return "(" + typ + ", func(), error)", "return " + zero + ", nil, nil"
+	case c:
+		return "(" + typ + ", func())", "return " + zero + ", nil"
+	case e:
+		return "(" + typ + ", error)", "return " + zero + ", nil"
+	}
+	return typ, "return " + zero
+}
+
 const injectHeader = "//go:build wireinject\n// +build wireinject\n\n"
 
 // Sources returns the files of package pkg in variant v with tag n.
 func Sources(pkg, v string, n int) []world.File {
+	// the declared result list of the injector varies with n (declared-but-unneeded
+	// cleanup / error results are legal); variants that are about a MISSING result keep it missing
+	res, ret := shape("Bar", "Bar{}", n, false, false)
+	switch v {
+	case "bad_sig_err":
+		res, ret = shape("Bar", "Bar{}", n, false, true)
+	case "bad_sig_cleanup":
+		res, ret = shape("Bar", "Bar{}", n, true, false)
+	}
 	f := func(name, body string) world.File {
 		body = strings.ReplaceAll(body, "{P}", pkg)
 		body = strings.ReplaceAll(body, "{N}", fmt.Sprint(n))
+		body = strings.ReplaceAll(body, "{RES}", res)
+		body = strings.ReplaceAll(body, "{RET}", ret)
 		return world.File{Path: pkg + "/" + name, Data: []byte(body)}
 	}
 	basicModel := `package {P}
@@ -111,9 +139,9 @@ func ProvideBaz(b Bar) Baz { return Baz{B: b} }
 
 import "github.com/google/wire"
 
-func InitBar() Bar {
+func InitBar() {RES} {
 	wire.Build(ProvideFoo{N}, ProvideBar)
-	return Bar{}
+	{RET}
 }
 `),
 		}
@@ -133,9 +161,9 @@ var BadSet = wire.NewSet(ProvideFoo{N}, ProvideFooB)
 
 import "github.com/google/wire"
 
-func InitBar() Bar {
+func InitBar() {RES} {
 	wire.Build(ProvideFoo{N}, ProvideBar)
-	return Bar{}
+	{RET}
 }
 `),
 		}
@@ -255,9 +283,9 @@ func InitQux() *Qux {
 
 import "github.com/google/wire"
 
-func InitBar() Bar {
+func InitBar() {RES} {
 	wire.Build(ProvideBar)
-	return Bar{}
+	{RET}
 }
 `),
 		}
@@ -268,9 +296,9 @@ func InitBar() Bar {
 
 import "github.com/google/wire"
 
-func InitBar() Bar {
+func InitBar() {RES} {
 	wire.Build(ProvideFoo{N}, ProvideBar, ProvideBaz)
-	return Bar{}
+	{RET}
 }
 `),
 		}
@@ -283,9 +311,9 @@ func ProvideFooB() Foo { return Foo{N: -1} }
 
 import "github.com/google/wire"
 
-func InitBar() Bar {
+func InitBar() {RES} {
 	wire.Build(ProvideFoo{N}, ProvideFooB, ProvideBar)
-	return Bar{}
+	{RET}
 }
 `),
 		}
@@ -305,9 +333,9 @@ func ProvideBar(f Foo) Bar { return Bar{F: f} }
 
 import "github.com/google/wire"
 
-func InitBar() Bar {
+func InitBar() {RES} {
 	wire.Build(ProvideFoo{N}, ProvideBar)
-	return Bar{}
+	{RET}
 }
 `),
 		}
@@ -318,11 +346,11 @@ func InitBar() Bar {
 
 import "github.com/google/wire"
 
-func InitBar() Bar {
+func InitBar() {RES} {
 	x := {N}
 	_ = x
 	wire.Build(ProvideFoo{N}, ProvideBar)
-	return Bar{}
+	{RET}
 }
 `),
 		}
@@ -342,9 +370,9 @@ func ProvideBar(f Foo) Bar { return Bar{F: f} }
 
 import "github.com/google/wire"
 
-func InitBar() Bar {
+func InitBar() {RES} {
 	wire.Build(ProvideFoo{N}, ProvideBar)
-	return Bar{}
+	{RET}
 }
 `),
 		}
@@ -364,9 +392,9 @@ func ProvideBar(f Foo) Bar { return Bar{F: f} }
 
 import "github.com/google/wire"
 
-func InitBar() (Bar, error) {
+func InitBar() {RES} {
 	wire.Build(ProvideFoo{N}, ProvideBar)
-	return Bar{}, nil
+	{RET}
 }
 `),
 		}
@@ -387,9 +415,9 @@ import (
 	"github.com/google/wire"
 )
 
-func InitBar() Bar {
+func InitBar() {RES} {
 	wire.Build(lib.HiddenSet, ProvideBar{N})
-	return Bar{}
+	{RET}
 }
 `),
 		}
@@ -400,9 +428,9 @@ func InitBar() Bar {
 
 import "github.com/google/wire"
 
-func InitBar() Bar {
+func InitBar() {RES} {
 	wire.Build(ProvideFoo{N}, ProvideBar)
-	return Bar{}
+	{RET}
 }
 
 func InitBaz() Baz {
